@@ -78,6 +78,7 @@ def parseEv (w : World) (ws : List String) : Option Ev :=
     | some i, some len => some (.open i len)
     | _, _ => none
   | ["next", i] => i.toNat?.map .next
+  | ["nextw", i] => i.toNat?.map .nextw
   | ["dstream", i] => i.toNat?.map .dstream
   | ["drop", id] => id.toNat?.map .drop
   | ["dropn", k] => k.toNat?.map .dropn
